@@ -431,6 +431,12 @@ func walkExec() {
 				if o["nn"] == nil {
 					o["nn"], o["nl"] = 0, 0
 				}
+				if o["id"] == nil {
+					o["id"] = 0
+				}
+				if o["src"] == nil {
+					o["src"] = "?"
+				}
 				emit(o)
 			}
 		}
